@@ -149,7 +149,7 @@ PROPS["C03"] = {
 
 PROPS["C10"] = {
     "title": "Context-dependent literal widths follow the types declared earlier",
-    "units": {"quick": ["parser_core", "parser_protocol", "tracker", "decoder"], "thorough": ["parser_core", "parser_protocol", "tracker", "decoder"]},
+    "units": {"quick": ["parser_core", "parser_protocol", "tracker", "decoder", "table_core"], "thorough": ["parser_core", "parser_protocol", "tracker", "decoder", "table_core"]},
     "only_items": {"parser_core": [r"parse_literal", r"parse_operands", r"parse_inst"], "parser_protocol": [r"Parser::(parse|new)$"]},
     "level": "proof",
     "technique": "Verus contract on the extracted parse_literal: words consumed and operand variant as a function of the tracker's abstract map only; fresh tracker per parser; tracker semantics by bounded Kani check",
@@ -161,7 +161,7 @@ PROPS["C10"] = {
 }
 PROPS["C04"] = {
     "title": "Parsing, loading, assembling and disassembling never panic on any input",
-    "units": {"quick": ["decoder", "parser_core", "parser_protocol", "loader", "disas_guard", "tracker", "assemble"],
+    "units": {"quick": ["decoder", "parser_core", "parser_protocol", "loader", "disas_guard", "tracker", "assemble", "table_core"],
               "thorough": ["decoder", "parser_core", "parser_protocol", "loader", "disas_guard", "tracker", "assemble", "table_core"]},
     "level": "proof",
     "technique": "aggregation of the panic-class obligations (index, slice, unwrap/expect, assert, panic!(), overflow, termination) Verus generates at the real source lines of decoder, parser, loader and disas_constant",
@@ -176,7 +176,7 @@ PROPS["C04"] = {
 
 PROPS["C02"] = {
     "title": "Assemble and parse are exact inverses on grammar-conforming instructions",
-    "units": {"quick": ["assemble", "kani_assemble_str", "parser_core", "parser_protocol", "tracker", "decoder"], "thorough": ["assemble", "kani_assemble_str", "parser_core", "parser_protocol", "tracker", "decoder"]},
+    "units": {"quick": ["assemble", "kani_assemble_str", "parser_core", "parser_protocol", "tracker", "decoder", "table_core"], "thorough": ["assemble", "kani_assemble_str", "parser_core", "parser_protocol", "tracker", "decoder"]},
     "only_items": {"parser_core": [r"parse_literal", r"parse_operand", r"parse_\w+_arguments", r"parse_inst", r"parse_spec_constant_op"],
                    "parser_protocol": [r"Parser::(parse|new)$"]},
     "engines": ["verus", "kani"],
@@ -246,7 +246,7 @@ PROPS["C15"] = {
 
 PROPS["C01"] = {
     "title": "Load-then-assemble reproduces every instruction of the input binary",
-    "units": {"quick": ["loader", "parser_protocol", "parser_core", "assemble", "decoder", "traversal_sweep", "tracker", "reflect"],
+    "units": {"quick": ["loader", "parser_protocol", "parser_core", "assemble", "decoder", "traversal_sweep", "tracker", "reflect", "table_core"],
               "thorough": ["loader", "parser_protocol", "parser_core", "assemble", "decoder", "traversal_sweep", "table_core", "tracker", "reflect"]},
     "only_items": {"reflect": [r"grammar::reflect::"], "loader": [r"Loader::", r"step_adds", r"step_appends", r"ms_", r"step_refines"],
                    "parser_protocol": [r"Parser::(parse|new)$", r"Action::consume"],
